@@ -368,6 +368,8 @@ impl tokio::io::AsyncWrite for ChopStream {
             this.budget = match this.mode & 3 {
                 // with stalls: byte by byte through the first and the last 64 bytes, the middle in bulk
                 1 if this.mode & 4 != 0 && this.pos >= 16 && buf.len() > 8 => ((buf.len() - 8) / (1 + this.rng.below(3) as usize)).max(1) + this.rng.below(5) as usize,
+                // byte by byte — except through the middle of a large buffer (quick tier: time)
+                1 if buf.len() > 4096 && this.pos >= 64 => buf.len() - 64,
                 1 => 1,
                 2 => (buf.len() / (2 + this.rng.below(2) as usize)).max(1) + this.rng.below(3) as usize,
                 _ => 1460,
